@@ -2,6 +2,7 @@ import Pathrs.Replay
 import Pathrs.Discipline
 import Pathrs.Capi
 import Pathrs.Kernel.World
+import Pathrs.Ledger
 
 /-!
 # Model driver: reads harness transcripts on stdin, replays each case through
@@ -551,6 +552,41 @@ def judgeDisc (c : Case) : String :=
     | none => s!"disc {c.id} ok calls={c.events.length} follow_opens={follows.length}"
   | some (cl, _) => s!"disc {c.id} BAD {showCall cl}"
 
+/-- `rustix::fs::Dir` opens a private descriptor of its own for a directory stream (the recorder sees `dir_open`
+answered `unit`, and later the `close` of a number it never saw handed out): drop exactly those closes, one per
+outstanding stream -/
+def dropStreamCloses : Hist → List Fd → Nat → Hist
+  | [], _, _ => []
+  | (c, r) :: rest, known, streams =>
+    match c with
+    | .dirOpen _ => (c, r) :: dropStreamCloses rest known (if r = .unit then streams + 1 else streams)
+    | .close n =>
+      if known.contains n then (c, r) :: dropStreamCloses rest (known.erase n) streams
+      else if streams > 0 then dropStreamCloses rest known (streams - 1)
+      else (c, r) :: dropStreamCloses rest known streams
+    | _ =>
+      match Ledger.produced c r with
+      | some n => (c, r) :: dropStreamCloses rest (n :: known) streams
+      | none => (c, r) :: dropStreamCloses rest known streams
+
+/-- the descriptor ledger of C11 evaluated on the recorded calls of the implementation: everything the call was handed
+and did not close is the descriptor it returns (for `ok fd` results), nothing otherwise; it never closes a descriptor it
+was not handed -/
+def judgeLedger (c : Case) : String :=
+  match Ledger.ledger [] (dropStreamCloses c.events [] 0) with
+  | none => s!"ledger {c.id} BAD the call closed a descriptor it did not own"
+  | some own =>
+    let want : Option (List Fd) := match c.res with
+      | "ok" :: "fd" :: rest => ((kvVal rest "fd").bind String.toInt?).map fun n => [n]
+      | "ok" :: "handle" :: rest => ((kvVal rest "fd").bind String.toInt?).map fun n => [n]
+      | "ok" :: "cint" :: _ => none      -- C API results: the number is a descriptor or a length, judged by the fd-table oracle
+      | "panic" :: _ => none
+      | _ => some []
+    match want with
+    | none => s!"ledger {c.id} skip"
+    | some w => if own.mergeSort = w.mergeSort then s!"ledger {c.id} ok open={own.length}"
+                else s!"ledger {c.id} BAD still open after the call: {own} expected {w}"
+
 /-- replay a sequential history of the C error table through the model -/
 def judgeErrTable (c : Case) : String :=
   let rec go : List (List String) → Capi.Table → Nat → String
@@ -589,3 +625,4 @@ def main : IO Unit := do
       IO.println (judge c)
       IO.println (judgeDisc c)
       IO.println (judgeSpec c)
+      IO.println (judgeLedger c)
